@@ -37,16 +37,16 @@ func regexpFromGlob(pattern string) string {
 	// https://github.com/google/re2/wiki/Syntax
 	// glob (programming) - Wikipedia
 	// https://en.wikipedia.org/wiki/Glob_(programming)
-	repstrs := []struct {
-		old string
-		new string
-	}{
-		{old: "*", new: ".*"},
-		{old: "?", new: "."},
+	var re2Pattern strings.Builder
+	for _, r := range pattern {
+		switch r {
+		case '*':
+			re2Pattern.WriteString(".*")
+		case '?':
+			re2Pattern.WriteString(".")
+		default:
+			re2Pattern.WriteString(regexp.QuoteMeta(string(r)))
+		}
 	}
-	re2Pattern := pattern
-	for _, repstr := range repstrs {
-		re2Pattern = strings.ReplaceAll(re2Pattern, repstr.old, repstr.new)
-	}
-	return "^" + re2Pattern + "$"
+	return "(?s)^" + re2Pattern.String() + "$"
 }
